@@ -687,6 +687,12 @@ SHARING_MODELS = [
     ("MCSharing_StaticFree.cfg", "Independent", "Sharing: process-wide cell (Independent must fail)"),
     ("MCSharing_StaticBatonDetects.cfg", "Independent", "Sharing: process-wide cell, the baton schedule alone (Independent must fail)"),
 ]
+HANDOVER_MODELS = [
+    ("MCHandover_Object.cfg", None, "Handover: tables kept in the generator, 2 generators moving between 3 threads"),
+    ("MCHandover_ThreadAtHome.cfg", None, "Handover: thread-local tables, no generator ever moves (Independent holds: why one generator per thread shows nothing)"),
+    ("MCHandover_ThreadDetects.cfg", "Independent", "Handover: thread-local tables, generators move (Independent must fail)"),
+    ("MCHandover_ProcessDetects.cfg", "Independent", "Handover: process-wide tables (Independent must fail)"),
+]
 DBD_SHARE_CFGS = ["Mo100:0:1", "Se82:0:1", "Cd106:0:10", "Cd106:1:12", "Zr96:0:20", "Nd150:1:3", "Mo100:1:7", "Te130:0:6", "Xe136:0:13",
                   "Ca48:0:15", "Ge76:0:18"]
 
@@ -709,6 +715,15 @@ def run_sharing(ck, wd, thorough, rng):
             raise vlib.InfraError("%s: the model does not break %s (vacuous)" % (cfg, must))
         if not must and r.violated:
             ck.violation("model:Sharing:" + r.violated, "Sharing.tla (%s) violates %s" % (cfg, r.violated), {"trace": r.trace[-4:]})
+    for cfg, must, label in HANDOVER_MODELS:
+        r = vlib.tlc("MCHandover", cfg, workers=1, timeout=300, xmx="2g")
+        if r.error:
+            raise vlib.InfraError("%s: %s" % (cfg, r.error))
+        ck.tlc_stats(r, label)
+        if must and r.violated != must:
+            raise vlib.InfraError("%s: the model does not break %s (vacuous)" % (cfg, must))
+        if not must and r.violated:
+            ck.violation("model:Handover:" + r.violated, "Handover.tla (%s) violates %s" % (cfg, r.violated), {"trace": r.trace[-4:]})
     S = sch.Schemes()
     names = catalogue.lis_background()
     chains = S.bkg_names(port_only=True)
@@ -818,6 +833,31 @@ def run_sharing(ck, wd, thorough, rng):
             d = [j for j in js if "differ" in j and "phase" not in j]
             ck.violation("sharing:free:events-differ", "free-running threads: events differ from the run alone: %s" % d[:3], {"mode": "sharing-free"})
     reps = tsan_reports(out, vlib.repo())
+    # spec/Handover.tla: every generator initialised, shot (twice) and reset on four different threads, one thread at a time
+    ho_cfg = ["Mo100:0:21", "Se82:0:21", "GATEST", "GATEST"] + extra_cfg + DBD_SHARE_CFGS + [n + ":bkg" for n in (names if thorough else names[::3])]
+    for variant, exe_h, env_h in (("plain", exe, dict(vlib.harness_env("plain"), BXDECAY0_DBD_GA_DATA_DIR=gad, VERIF_GA_VERSION="v1.0")), ("tsan", exe_t, env)):
+        rc, out = vlib.sh([exe_h, "--mode", "handover", "--threads", "4", "--events", "6" if thorough else "3"], input="\n".join(ho_cfg) + "\n",
+                          timeout=1500, env=env_h)
+        if rc == 124:
+            raise vlib.InfraError("handover run timed out")
+        js = [json.loads(l) for l in out.splitlines() if l.startswith("{")]
+        summ = [j for j in js if j.get("phase") == "handover"]
+        if not summ:
+            ck.violation("handover:crash", "generators handed over between threads (%s build) died rc=%s: %s" % (variant, rc, out[-600:]),
+                         {"mode": "sharing-handover"})
+            continue
+        ck.add("handover_generators", summ[-1]["configs"])
+        ck.add("handover_events_compared", summ[-1]["events_compared"])
+        ck.add("evaluations", summ[-1]["configs"])
+        for j in js:
+            if "differ" in j and "phase" not in j:
+                ck.violation("handover:events-differ:%s" % j["differ"].split(":")[0].replace("MDL@", ""),
+                             "generator %s initialised on one thread, shot on two others and reset on a fourth (never two threads at a time): from "
+                             "event #%d on its events differ from those of the same stages on one thread (got %s): something initialisation "
+                             "leaves for the shots does not travel with the object (Handover.tla, Scope # object)" % (j["differ"], j["first"], j["got"][:100]),
+                             {"mode": "sharing-handover", "cfg": j["differ"]})
+        if variant == "tsan":
+            reps += tsan_reports(out, vlib.repo())
     ck.add("tsan_reports", len(reps))
     seen = set()
     for sym, what in reps:
@@ -943,6 +983,18 @@ def run_replay(path):
         print("rc=%s %s" % (rc, js))
         if rc != 0 or any(j["differ"][0] or j["differ"][1] for j in js):
             print("VIOLATION property=%s replay=%s" % (PID, path))
+            return 1
+        print("OK (not reproduced)")
+        return 0
+    if rp.get("mode") in ("sharing-free", "sharing-handover"):
+        # these cases are whole runs (free-running / handed-over generators over every configuration): run the phase again
+        ck = vlib.Check(PID, "model_checking", "quick")
+        ck.violations = []
+        run_sharing(ck, wd, False, random.Random(ck.seed))
+        same = [v for v in ck.violations if v[0] == obj.get("key")] or ck.violations
+        if same:
+            print("VIOLATION property=%s replay=%s" % (PID, path))
+            print("  what: %s" % same[0][1])
             return 1
         print("OK (not reproduced)")
         return 0
